@@ -1369,11 +1369,37 @@ func concurrentRound(out *vh.Result, root string, round int, seed int64) {
 		readers = 4
 	)
 	input := vh.J{"behaviours": []behaviour{}, "interval": 2, "concurrent": 1}
+	// C14 does not quantify over schedules: a reading that is wrong only because the writer's
+	// mutation lands in the middle of the reader's call is an OBSERVATION, not a verdict.  Verdicts
+	// are a failure of the process (panic), and whatever is still wrong once the race is over: the
+	// readings of the quiescent store and of the reopened directory.
+	var obsMu sync.Mutex
+	var observations []string
 	report := func(what, detail string, exp, obs any) {
-		out.Diverge(vh.Divergence{Key: "wal-concurrent:" + what,
-			What:  fmt.Sprintf("1 writer (%d batches of %d entries, a prune every 6th) + %d readers for its whole lifetime: %s", batches, perB, readers, detail),
-			Input: input, Step: round, Expected: exp, Observed: obs})
+		text := fmt.Sprintf("wal-concurrent:%s - 1 writer (%d batches of %d entries, a prune every 6th) + %d readers for its whole lifetime: %s",
+			what, batches, perB, readers, detail)
+		if what == "panic" || strings.HasPrefix(what, "after:") {
+			key := "wal-concurrent:panic"
+			if what != "panic" {
+				key = "wal-after-concurrency:" + strings.TrimPrefix(what, "after:")
+			}
+			out.Diverge(vh.Divergence{Key: key, What: text, Input: input, Step: round, Expected: exp, Observed: obs})
+			return
+		}
+		obsMu.Lock()
+		observations = append(observations, text)
+		obsMu.Unlock()
 	}
+	defer func() {
+		obsMu.Lock()
+		defer obsMu.Unlock()
+		if len(observations) > 0 {
+			out.Count("observations", len(observations))
+			for _, o := range observations[:min(3, len(observations))] {
+				out.Sample(vh.J{"observation": o})
+			}
+		}
+	}()
 	dir := filepath.Join(root, fmt.Sprintf("conc%03d", round))
 	must(os.MkdirAll(dir, 0o755))
 	defer os.RemoveAll(dir)
@@ -1516,20 +1542,40 @@ func concurrentRound(out *vh.Result, root string, round int, seed int64) {
 		})
 	}
 	wg.Wait()
+	// the race is over: from here on everything is sequential, and a verdict
+	want := []int{}
+	for h := prunedAt(batches) + 1; h <= batches; h++ {
+		want = append(want, ids(h)...)
+	}
+	read := func(s store) (got []int, bad string) {
+		for e, err := range s.LoadAllEntries() {
+			if err != nil {
+				return got, err.Error()
+			}
+			id, ok := entryID(e)
+			h := int(uint64(e.GetHeight()) / heightStride)
+			if !ok || !reflect.DeepEqual(e, mkEntry(realHeight(h), id)) {
+				return got, fmt.Sprintf("entry differs from what was written: %+v", e)
+			}
+			got = append(got, id)
+		}
+		return got, ""
+	}
+	if c := int(completed.Load()); c == batches {
+		if got, bad := read(st); bad != "" || !reflect.DeepEqual(got, want) {
+			report("after:quiescent-store-reads-wrong", fmt.Sprintf("after every goroutine ended the store shows %d entries (%s), the %d flushed batches hold %d", len(got), bad, batches, len(want)), len(want), len(got))
+		}
+	}
 	_ = st.Close()
-	// and what is on disk is the last prefix
 	st2, err := openStore(dir)
 	if err != nil {
-		report("reopen-failed", err.Error(), "opens", err.Error())
+		report("after:reopen-failed", err.Error(), "opens", err.Error())
 		return
 	}
-	n := 0
-	for range st2.LoadAllEntries() {
-		n++
-	}
+	got, bad := read(st2)
 	_ = st2.Close()
-	if want := (batches - prunedAt(batches)) * perB; n != want && len(out.Divergences) == 0 {
-		report("reopen-count", fmt.Sprintf("%d entries after reopening, want %d", n, want), want, n)
+	if c := int(completed.Load()); c == batches && (bad != "" || !reflect.DeepEqual(got, want)) {
+		report("after:reopened-store-reads-wrong", fmt.Sprintf("reopening shows %d entries (%s), the %d flushed batches hold %d", len(got), bad, batches, len(want)), len(want), len(got))
 	}
 	out.Count("concurrent_rounds", 1)
 }
